@@ -869,6 +869,9 @@ func (c *VCtx) translateCall(sc *Scope, x *ECall) Val {
 		return Select(h, c.fnID(id.Name))
 	case "datalen":
 		return c.dataLen(arg(0))
+	case "ctxparent":
+		// ctxparent(c): the context c was derived from (context.WithCancel)
+		return c.ctxParent(arg(0))
 	case "cancelOf":
 		return c.cancelOf(arg(0))
 	case "srccnt":
